@@ -90,7 +90,7 @@ package rac
 //@   ensures implies(result, V(b))
 //@   loop 1 invariant 0 <= i && i <= arity && arity == ar(b) && arity >= 1
 //@   loop 1 invariant forall(k, 0, i, b[8*k+6] == 0 && !(0xC0 <= ttag(b, k) && ttag(b, k) < 0xFD))
-//@   loop 1 invariant hasChildren == exists(k, 0, i, ttag(b, k) != 0xFD)
+//@   loop 1 invariant implies(hasChildren, exists(k, 0, i, ttag(b, k) != 0xFD))
 //@   loop 1 decreases arity - i
 //@   loop 2 invariant 1 <= i && i <= arity + 1 && arity == ar(b) && prev == dptr(b, i-1)
 //@   loop 2 invariant forall(k, 0, i-1, dptr(b, k) <= dptr(b, k+1))
